@@ -522,7 +522,8 @@ theorem delete_disk (l : Log) (hrw : l.opts.readonly = false) (offs : List Int) 
       deleteProg l offs =
         (if nh then newHead l.wNextOff l.opts.nsv else []) ++ swapProg l.opts.params x.base rw ∧
       (l.delete offs).1.disk = PRE ++ (fin l.opts.params rw ++ (POST0 ++ if nh then [nhD l] else [])) ∧
-      (nh = true → POST0 = []) ∧ x.recs ≠ [] ∧ rw.survive.Sublist x.recs := by
+      (nh = true → POST0 = []) ∧ x.recs ≠ [] ∧ rw.survive.Sublist x.recs ∧
+      rw.ver = (if l.opts.keep then x.ver else l.opts.nsv) ∧ rw.iver = rw.ver := by
   rcases delete_cases l hrw offs with h | ⟨i, hi, hde, h⟩
   · exact Or.inl h
   · right
@@ -538,7 +539,7 @@ theorem delete_disk (l : Log) (hrw : l.opts.readonly = false) (offs : List Int) 
       have hdrop : l.segs.drop (i + 1) = [] := List.drop_eq_nil_of_le (by omega)
       refine ⟨(l.segs.take i).map Seg.toDisk, (l.segs[i]).toDisk, [], rwOf l (l.segs[i]) offs,
         decide ((rwOf l (l.segs[i]) offs).survive.isEmpty ∨ tailDeleted (l.segs[i]) (rwOf l (l.segs[i]) offs)),
-        ?_, ?_, ?_, fun _ => rfl, hrne, hsub⟩
+        ?_, ?_, ?_, fun _ => rfl, hrne, hsub, rfl, rfl⟩
       · have := disk_split l i hi
         rw [hdrop] at this; exact this
       · rw [hprog]
@@ -565,7 +566,7 @@ theorem delete_disk (l : Log) (hrw : l.opts.readonly = false) (offs : List Int) 
             rw [openWriter_rewritten_disk _ _ _ (ne_of_isEmpty_false hE)]
     · -- a reader
       refine ⟨(l.segs.take i).map Seg.toDisk, (l.segs[i]).toDisk, (l.segs.drop (i + 1)).map Seg.toDisk,
-        rwOf l (l.segs[i]) offs, false, disk_split l i hi, ?_, ?_, (fun h => by cases h), hrne, hsub⟩
+        rwOf l (l.segs[i]) offs, false, disk_split l i hi, ?_, ?_, (fun h => by cases h), hrne, hsub, rfl, rfl⟩
       · rw [hprog]; rfl
       · rw [hres]
         unfold swapReader fin
@@ -714,7 +715,7 @@ theorem delete_setup (l : Log) (hinv : Inv l) (hrw : l.opts.readonly = false) (o
 /-- The Delete program ends exactly where the model's Delete ends. -/
 theorem delete_final (l : Log) (hinv : Inv l) (hrw : l.opts.readonly = false) (offs : List Int) :
     applySteps l.disk (deleteProg l offs) = (l.delete offs).1.disk := by
-  rcases delete_disk l hrw offs with ⟨hp, hl⟩ | ⟨PRE, x, POST0, rw, nh, hd, hprog, hres, hnh, hrne, hsub⟩
+  rcases delete_disk l hrw offs with ⟨hp, hl⟩ | ⟨PRE, x, POST0, rw, nh, hd, hprog, hres, hnh, hrne, hsub, _, _⟩
   · rw [hp, hl]; rfl
   · obtain ⟨h1, hok, _, _, hnb, _⟩ := delete_setup l hinv hrw offs PRE x POST0 rw nh hd hres hnh hrne hsub
     obtain ⟨hpre, hpost⟩ := split_order _ _ _ hok
@@ -731,7 +732,7 @@ theorem delete_crash_disk (l : Log) (hinv : Inv l) (hrw : l.opts.readonly = fals
   obtain ⟨hdok, hdabs⟩ := disk_of_inv l hinv
   unfold crashState prog
   simp only
-  rcases delete_disk l hrw offs with ⟨hp, hl⟩ | ⟨PRE, x, POST0, rw, nh, hd, hprog, hres, hnh, hrne, hsub⟩
+  rcases delete_disk l hrw offs with ⟨hp, hl⟩ | ⟨PRE, x, POST0, rw, nh, hd, hprog, hres, hnh, hrne, hsub, _, _⟩
   · rw [hp]
     simp only [List.take_nil, applySteps_nil]
     exact ⟨hdok, Or.inl hdabs⟩
